@@ -817,10 +817,21 @@ def r9_empty_cluster_rejected(ctx):
             if a[0] == 'bool' and a[2] is False and a[1][0] == 'call' and a[1][1].split('::')[-1] == 'eq' and any(x[0] == 'field' and x[2] == 'kardinality' for x in walk(a[1])) and zero_cluster(a[1]):
                 seen = True
         ctx.check(seen, 'empty-cluster-rejected', 'a submodule is only elaborated after its cluster size was found to be non-zero', f.where_path(path))
+        # a type applied to arguments elaborates only with exactly as many arguments as it has parameters (too few would leave
+        # placeholders in the network, too many would be dropped silently)
+        atoms_ = [a for _, a in path_atoms(f, path, decs)]
+        with_args = any(a[0] == 'bool' and a[2] is False and a[1][0] == 'call' and a[1][1].endswith('::is_empty') and any(x[0] == 'field' and x[2] == 'args' for x in walk(a[1])) for a in atoms_)
+        if with_args:
+            lens = [a for a in atoms_ if a[0] == 'cmp' and all(any(x[0] == 'call' and x[1].endswith('::len') for x in walk(side)) for side in (a[2], a[3]))]
+            ctx.check(any(a[1] == 'eq' for a in lens), 'type-argument-arity', 'type arguments are accepted only if their number equals the number of parameters', f.where_path(path), [show_atom(a)[:120] for a in lens])
     ctx.floor('successful paths of transform_submodule', n, 2)
 
 
 def run(ctx):
+    # (R10) the wiring primitive the instantiation relies on: connecting an already connected pair is a no-op that comes before the
+    # capacity assertion, so a connection stated twice (or restated by a derived module) builds (shared with C08.R4)
+    from .C08 import r4_peers
+    r4_peers(ctx, rule='C18.R10')
     r9_empty_cluster_rejected(ctx)
     r8_position_stack(ctx)
     r6_links_become_channels(ctx)
